@@ -10,23 +10,25 @@ structure Inv (s : St) : Prop where
   u2    : ∀ t, (t, UPc.u2) ∈ s.unl → s.held = false
   said  : 0 < s.saidUnlocked → s.held = false ∨ s.cb = .c1
   armedU0 : s.timer = .armed → ∀ t pc, (t, pc) ∈ s.unl → pc = .u0
+  u2f   : ∀ t, (t, UPc.u2f) ∈ s.unl → s.owed = true
 
 theorem init_inv : Inv init :=
   ⟨fun _ => ⟨rfl, rfl⟩, (fun h => by cases h), (fun h => by rcases h with h | h <;> cases h),
-   (fun h => by cases h), (fun t h => by cases h), (fun h => by simp [init] at h), (fun _ t pc h => by cases h)⟩
+   (fun h => by cases h), (fun t h => by cases h), (fun h => by simp [init] at h), (fun _ t pc h => by cases h),
+   (fun t h => by cases h)⟩
 
 theorem mem_filter_of_mem {l : List (Nat × UPc)} {p : Nat × UPc → Bool} {x : Nat × UPc}
     (h : x ∈ l.filter p) : x ∈ l := (List.mem_filter.mp h).1
 
 theorem step_inv (s s' : St) (a : Act) (ans : Ans) (h : Inv s) (hs : step s a = some (s', ans)) : Inv s' := by
-  obtain ⟨ha, hf, hc, ho, hu, hsd, hau⟩ := h
+  obtain ⟨ha, hf, hc, ho, hu, hsd, hau, huf⟩ := h
   cases a with
   | startUnlock t =>
     simp only [step] at hs
     split at hs
     · cases hs
     · simp at hs; obtain ⟨rfl, _⟩ := hs
-      refine ⟨ha, hf, hc, ho, ?_, hsd, ?_⟩
+      refine ⟨ha, hf, hc, ho, ?_, hsd, ?_, ?_⟩
       · intro t' hm
         simp at hm
         exact hu t' hm
@@ -35,6 +37,9 @@ theorem step_inv (s s' : St) (a : Act) (ans : Ans) (h : Inv s) (hs : step s a = 
         rcases hm with hm | hm
         · exact hau htm t' pc hm
         · exact hm.2
+      · intro t' hm
+        simp at hm
+        exact huf t' hm
   | unlockStep t =>
     simp only [step] at hs
     split at hs
@@ -48,35 +53,41 @@ theorem step_inv (s s' : St) (a : Act) (ans : Ans) (h : Inv s) (hs : step s a = 
           simp only [htm] at hs
           simp at hs; obtain ⟨rfl, _⟩ := hs
           have hcb := hf htm
-          refine ⟨(fun h => by cases h), (fun h => by cases h), hc, ?_, fun t' hm => hu t' (mem_filter_of_mem hm), ?_, (fun h => by cases h)⟩
+          refine ⟨(fun h => by cases h), (fun h => by cases h), hc, ?_, ?_, hsd, (fun h => by cases h), fun _ _ => rfl⟩
           · intro _
             cases hcbv : s.cb with
             | none => exact absurd hcbv hcb
             | c1 => right; rfl
             | c2 => left; exact hc (Or.inl hcbv)
             | c3 => left; exact hc (Or.inr hcbv)
-          · intro _
-            cases hcbv : s.cb with
-            | none => exact absurd hcbv hcb
-            | c1 => right; rfl
-            | c2 => left; exact hc (Or.inl hcbv)
-            | c3 => left; exact hc (Or.inr hcbv)
+          · intro t' hm
+            rcases List.mem_append.mp hm with h1 | h1
+            · exact hu t' (mem_filter_of_mem h1)
+            · simp at h1
         | none =>
           simp only [htm] at hs
           simp at hs; obtain ⟨rfl, _⟩ := hs
-          refine ⟨(fun h => by cases h), (fun h => by cases h), hc, ho, ?_, hsd, (fun h => by cases h)⟩
-          intro t' hm
-          rcases List.mem_append.mp hm with h1 | h1
-          · exact hu t' (mem_filter_of_mem h1)
-          · simp at h1
+          refine ⟨(fun h => by cases h), (fun h => by cases h), hc, ho, ?_, hsd, (fun h => by cases h), ?_⟩
+          · intro t' hm
+            rcases List.mem_append.mp hm with h1 | h1
+            · exact hu t' (mem_filter_of_mem h1)
+            · simp at h1
+          · intro t' hm
+            rcases List.mem_append.mp hm with h1 | h1
+            · exact huf t' (mem_filter_of_mem h1)
+            · simp at h1
         | armed =>
           simp only [htm] at hs
           simp at hs; obtain ⟨rfl, _⟩ := hs
-          refine ⟨(fun h => by cases h), (fun h => by cases h), hc, ho, ?_, hsd, (fun h => by cases h)⟩
-          intro t' hm
-          rcases List.mem_append.mp hm with h1 | h1
-          · exact hu t' (mem_filter_of_mem h1)
-          · simp at h1
+          refine ⟨(fun h => by cases h), (fun h => by cases h), hc, ho, ?_, hsd, (fun h => by cases h), ?_⟩
+          · intro t' hm
+            rcases List.mem_append.mp hm with h1 | h1
+            · exact hu t' (mem_filter_of_mem h1)
+            · simp at h1
+          · intro t' hm
+            rcases List.mem_append.mp hm with h1 | h1
+            · exact huf t' (mem_filter_of_mem h1)
+            · simp at h1
       | u1 =>
         simp only at hs
         split at hs
@@ -84,31 +95,42 @@ theorem step_inv (s s' : St) (a : Act) (ans : Ans) (h : Inv s) (hs : step s a = 
           have hmem : (t0, UPc.u1) ∈ s.unl := List.mem_of_find?_eq_some hfind
           have hna : s.timer ≠ .armed := fun htm => by have := hau htm t0 .u1 hmem; cases this
           refine ⟨fun htm => absurd htm hna, hf, fun _ => rfl, fun _ => Or.inl rfl, fun _ _ => rfl, fun _ => Or.inl rfl,
-                  fun htm => absurd htm hna⟩
+                  fun htm => absurd htm hna, ?_⟩
+          intro t' hm
+          rcases List.mem_append.mp hm with h1 | h1
+          · exact huf t' (mem_filter_of_mem h1)
+          · simp at h1
         · rename_i hh
           simp at hs; obtain ⟨rfl, _⟩ := hs
           exact ⟨ha, hf, hc, ho, fun t' hm => hu t' (mem_filter_of_mem hm), hsd,
-                 fun htm t' pc hm => hau htm t' pc (mem_filter_of_mem hm)⟩
+                 fun htm t' pc hm => hau htm t' pc (mem_filter_of_mem hm), fun t' hm => huf t' (mem_filter_of_mem hm)⟩
       | u2 =>
         simp only at hs
         simp at hs; obtain ⟨rfl, _⟩ := hs
         have hh : s.held = false := hu t0 (by
           have := List.mem_of_find?_eq_some hfind; exact this)
         exact ⟨ha, hf, hc, ho, fun t' hm => hu t' (mem_filter_of_mem hm), fun _ => Or.inl hh,
-               fun htm t' pc hm => hau htm t' pc (mem_filter_of_mem hm)⟩
+               fun htm t' pc hm => hau htm t' pc (mem_filter_of_mem hm), fun t' hm => huf t' (mem_filter_of_mem hm)⟩
+      | u2f =>
+        simp only at hs
+        simp at hs; obtain ⟨rfl, _⟩ := hs
+        have hmem : (t0, UPc.u2f) ∈ s.unl := List.mem_of_find?_eq_some hfind
+        have how := ho (huf t0 hmem)
+        exact ⟨ha, hf, hc, ho, fun t' hm => hu t' (mem_filter_of_mem hm), fun _ => how,
+               fun htm t' pc hm => hau htm t' pc (mem_filter_of_mem hm), fun t' hm => huf t' (mem_filter_of_mem hm)⟩
   | renew =>
     simp only [step] at hs
     split at hs <;> simp at hs <;> obtain ⟨rfl, _⟩ := hs
-    · exact ⟨ha, hf, hc, ho, hu, hsd, hau⟩
-    · exact ⟨ha, hf, hc, ho, hu, hsd, hau⟩
-    · exact ⟨ha, hf, hc, ho, hu, hsd, hau⟩
+    · exact ⟨ha, hf, hc, ho, hu, hsd, hau, huf⟩
+    · exact ⟨ha, hf, hc, ho, hu, hsd, hau, huf⟩
+    · exact ⟨ha, hf, hc, ho, hu, hsd, hau, huf⟩
   | fire =>
     simp only [step] at hs
     split at hs
     · rename_i hc0
       simp at hs; obtain ⟨rfl, _⟩ := hs
       refine ⟨(fun h => by cases h), (fun _ => by simp), (fun h => by rcases h with h | h <;> cases h),
-              fun _ => Or.inr rfl, hu, fun _ => Or.inr rfl, (fun h => by cases h)⟩
+              fun _ => Or.inr rfl, hu, fun _ => Or.inr rfl, (fun h => by cases h), huf⟩
     · cases hs
   | cbStep =>
     simp only [step] at hs
@@ -116,17 +138,17 @@ theorem step_inv (s s' : St) (a : Act) (ans : Ans) (h : Inv s) (hs : step s a = 
     · cases hs
     · rename_i hcb
       simp at hs; obtain ⟨rfl, _⟩ := hs
-      refine ⟨?_, (fun h => by simp), fun _ => rfl, fun _ => Or.inl rfl, fun _ _ => rfl, fun _ => Or.inl rfl, hau⟩
+      refine ⟨?_, (fun h => by simp), fun _ => rfl, fun _ => Or.inl rfl, fun _ _ => rfl, fun _ => Or.inl rfl, hau, huf⟩
       intro htm; have := (ha htm).2; rw [hcb] at this; cases this
     · rename_i hcb
       simp at hs; obtain ⟨rfl, _⟩ := hs
       have hh := hc (Or.inl hcb)
-      refine ⟨?_, (fun h => by simp), fun _ => hh, fun _ => Or.inl hh, hu, fun _ => Or.inl hh, hau⟩
+      refine ⟨?_, (fun h => by simp), fun _ => hh, fun _ => Or.inl hh, hu, fun _ => Or.inl hh, hau, huf⟩
       intro htm; have := (ha htm).2; rw [hcb] at this; cases this
     · rename_i hcb
       simp at hs; obtain ⟨rfl, _⟩ := hs
       have hh := hc (Or.inr hcb)
-      refine ⟨?_, ?_, (fun h => by rcases h with h | h <;> cases h), fun _ => Or.inl hh, hu, fun _ => Or.inl hh, ?_⟩
+      refine ⟨?_, ?_, (fun h => by rcases h with h | h <;> cases h), fun _ => Or.inl hh, hu, fun _ => Or.inl hh, ?_, huf⟩
       · intro htm
         split at htm
         · cases htm
